@@ -232,6 +232,24 @@ class Resolver:
                 out |= self.return_types(t, self._ctx_for(t, e, f, sc))
             return out or {UNKNOWN}
         if isinstance(e, ast.Subscript):
+            # a dispatch table: a subscript over a dict / list / tuple display (written in place, or bound once to a local or to
+            # a module-level name) denotes one of its values
+            table = e.value
+            if isinstance(table, ast.Name) and f is not None:
+                defs = self.local_assigns.get(f.qual, {}).get(table.id, [])
+                if len(defs) == 1 and isinstance(defs[0], ast.AST):
+                    table = defs[0]
+                elif not defs:
+                    r_ = self.p.resolve_name(f.module, table.id)
+                    if r_ and r_[0] == "const" and table.id not in r_[1].multi_assigned:
+                        table = r_[2]
+            vals = table.values if isinstance(table, ast.Dict) else table.elts if isinstance(table, (ast.List, ast.Tuple)) else None
+            if vals:
+                out = set()
+                for v_ in vals:
+                    if v_ is not None:
+                        out |= self.type_of(v_, f, sc)
+                return out or {UNKNOWN}
             return {UNKNOWN}
         if isinstance(e, ast.Starred):
             return {UNKNOWN}
